@@ -28,7 +28,10 @@ AIdx(n) == CHOOSE i \in 1..NA : MRAtoms[i].n = n
 \* exponent vector from a set of <<atom, n, d>>
 EV(S) == [i \in 1..NA |-> IF \E t \in S : t[1] = MRAtoms[i].n THEN (LET tt == CHOOSE t2 \in S : t2[1] = MRAtoms[i].n IN Norm(tt[2], tt[3])) ELSE RZero]
 \* a leaf = a unit string: exponent vector + log2 of a leading numeric coefficient ("8*la" has clg 3)
-LfC(s, reg, S, c) == [s |-> s, reg |-> reg, ex |-> EV(S), clg |-> R(c)]
+\* xs: the leaf is GIVEN with the scale 2**xlg (Unit(expr, base_value=2.0**xlg, dimensions=..., registry=...)) instead of
+\* the scale its expression resolves to
+LfC(s, reg, S, c) == [s |-> s, reg |-> reg, ex |-> EV(S), clg |-> R(c), xs |-> FALSE, xlg |-> RZero]
+LfX(s, reg, S, x) == [s |-> s, reg |-> reg, ex |-> EV(S), clg |-> RZero, xs |-> TRUE, xlg |-> R(x)]
 Lf(s, reg, S) == LfC(s, reg, S, 0)
 Atom(n) == Lf(n, 1, {<<n, 1, 1>>})
 MRLeaves == <<
@@ -48,7 +51,14 @@ MRLeaves == <<
   LfC("0.25*ta", 1, {<<"ta", 1, 1>>}, -2),
   LfC("4*la/ta", 1, {<<"la", 1, 1>>, <<"ta", -1, 1>>}, 2),
   LfC("16", 1, {}, 4),
-  LfC("2*ma*lb", 1, {<<"ma", 1, 1>>, <<"lb", 1, 1>>}, 1) >>
+  LfC("2*ma*lb", 1, {<<"ma", 1, 1>>, <<"lb", 1, 1>>}, 1),
+  \* registry 5 defines la, ta, ma, nq DIFFERENTLY (two datasets with their own code units): the ratio of the same-named
+  \* symbols of registries 1 and 5 has expression 1 and a scale that is not 1
+  Lf("la", 5, {<<"la", 1, 1>>}), Lf("ta", 5, {<<"ta", 1, 1>>}), Lf("ma*la/ta", 5, {<<"ma", 1, 1>>, <<"la", 1, 1>>, <<"ta", -1, 1>>}),
+  Lf("nq", 5, {<<"nq", 1, 1>>}),
+  \* units given with an explicit scale: expression and scale disagree with the naive reading
+  LfX("1", 1, {}, -1), LfX("1", 1, {}, 3), LfX("la", 1, {<<"la", 1, 1>>}, 3),
+  LfX("la/lb", 1, {<<"la", 1, 1>>, <<"lb", -1, 1>>}, 0), LfX("ma*la**2/ta**2", 1, {<<"ma", 1, 1>>, <<"la", 2, 1>>, <<"ta", -2, 1>>}, -4) >>
 PlainLeaf(x) == RIsZero(MRLeaves[x].clg)
 NMR == Len(MRLeaves)
 
@@ -56,6 +66,10 @@ NMR == Len(MRLeaves)
 \* registry 4 of the harness starts like registry 1 and is EDITED by the histories of law "state";
 \* a table is a tuple over the atoms of [lg, dim, neg, off]
 Table0 == [i \in 1..NA |-> [lg |-> MRAtoms[i].lg, dim |-> MRAtoms[i].dim, neg |-> MRAtoms[i].neg, off |-> MRAtoms[i].off]]
+\* registry 5: the same symbols, four of them with other scales
+Lg5(n, d) == CASE n = "la" -> R(1) [] n = "ta" -> R(3) [] n = "ma" -> R(-1) [] n = "nq" -> R(0) [] OTHER -> d
+Table5 == [i \in 1..NA |-> [Table0[i] EXCEPT !.lg = Lg5(MRAtoms[i].n, @)]]
+TableOf(reg) == IF reg = 5 THEN Table5 ELSE Table0
 \* an edit: [k, sym, lg, d] ; k = "modify" (UnitRegistry.modify(sym, 2.0**lg): scale replaced, dimension/offset kept)
 \*          | "add" (add over the existing row) | "readd" (remove, then add): scale 2**lg, dimension of atom d, offset 0
 Ed(k, sym, lg, d) == [k |-> k, sym |-> sym, lg |-> lg, d |-> d]
@@ -74,11 +88,12 @@ Obsify(u) == IF IsUnit(u) THEN [k |-> "unit", ex |-> u.ex, clg |-> u.clg, c1 |->
 SingleAtom(ex) == Cardinality({i \in 1..NA : ~RIsZero(ex[i])}) = 1 /\ \E i \in 1..NA : ex[i] = ROne
 \* Unit(string, registry) on table T: scale and dimension from the rows, the offset only for a bare symbol
 LeafRecT(l, T, reg) ==
+  IF l.xs THEN Obsify(MkUnit(l.ex, RZero, l.xlg, FALSE, DotV(l.ex, [i \in 1..NA |-> T[i].dim]), RZero, reg, TRUE, TRUE)) ELSE
   LET one == CHOOSE i \in 1..NA : l.ex[i] = ROne
       off == IF SingleAtom(l.ex) /\ RIsZero(l.clg) THEN T[one].off ELSE RZero IN
   Obsify(MkUnit(l.ex, l.clg, QAdd(l.clg, Dot(l.ex, [i \in 1..NA |-> T[i].lg])), SingleAtom(l.ex) /\ RIsZero(l.clg) /\ T[one].neg,
                 DotV(l.ex, [i \in 1..NA |-> T[i].dim]), off, reg, TRUE, TRUE))
-LeafRec(l) == LeafRecT(l, Table0, l.reg)
+LeafRec(l) == LeafRecT(l, TableOf(l.reg), l.reg)
 OneRec(reg) == Obsify(MkUnit([i \in 1..NA |-> RZero], RZero, RZero, FALSE, VZero(ND), RZero, reg, TRUE, TRUE))
 
 \* one step of the model run
@@ -103,9 +118,10 @@ ModelExec(ins0, regs, alg, adim, ain) ==
     [] ins.op = "pow" -> Obsify(UPow(regs[ins.a], ins.e, TRUE))
     [] ins.op = "simplify" -> ModelSimplify(regs[ins.a], alg, adim, ain)
     [] ins.op = "coeff" -> ModelCoeff(regs[ins.a])
-RECURSIVE RunFrom(_, _, _, _, _, _)
-RunFrom(prog, regs, alg, adim, ain, k) ==
-  IF k > Len(prog) THEN regs ELSE RunFrom(prog, Append(regs, ModelExec(prog[k], regs, alg, adim, ain)), alg, adim, ain, k + 1)
+RECURSIVE RunFrom(_, _, _, _, _, _, _)
+RunFrom(prog, regs, alg, adim, ain, olds, k) ==
+  IF k > Len(prog) THEN regs
+  ELSE RunFrom(prog, Append(regs, IF prog[k].op = "old" THEN olds[prog[k].a] ELSE ModelExec(prog[k], regs, alg, adim, ain)), alg, adim, ain, olds, k + 1)
 ModelPair(regs, pr) ==
   LET a == regs[pr.i] b == regs[pr.j] both == IsUnit(a) /\ IsUnit(b) IN
   [i |-> pr.i, j |-> pr.j, kind |-> pr.kind, eq |-> UEq(a, b), eqr |-> UEq(b, a),
@@ -119,12 +135,15 @@ ModelRunT(c, T, hreg) ==
       used == {a \in 1..NA : \E r \in 1..3 : ~RIsZero(lf[r].ex[a])}
       au == SelectSeq([a \in 1..NA |-> a], LAMBDA a : a \in used)
       cut(u) == [u EXCEPT !.ex = [x \in 1..Len(au) |-> u.ex[au[x]]]]
-      alg == [x \in 1..Len(au) |-> T[au[x]].lg]
-      adim == [x \in 1..Len(au) |-> T[au[x]].dim]
       rg(r) == IF hreg = 0 THEN lf[r].reg ELSE hreg
-      regs0 == <<cut(LeafRecT(lf[1], T, rg(1))), cut(LeafRecT(lf[2], T, rg(2))), cut(LeafRecT(lf[3], T, rg(3))), cut(OneRec(rg(1)))>>
-      ain == [x \in 1..Len(au) |-> IF MRAtoms[au[x]].n = "xb" THEN <<2>> ELSE <<1, 2, 3, 4>>]
-      regs == RunFrom(prog, regs0, alg, adim, ain, 1)
+      tb(r) == IF hreg = 0 THEN TableOf(lf[r].reg) ELSE T
+      \* the reference table of the run is the one of the first leaf's registry (what simplify of its results looks up)
+      alg == [x \in 1..Len(au) |-> tb(1)[au[x]].lg]
+      adim == [x \in 1..Len(au) |-> tb(1)[au[x]].dim]
+      regs0 == <<cut(LeafRecT(lf[1], tb(1), rg(1))), cut(LeafRecT(lf[2], tb(2), rg(2))), cut(LeafRecT(lf[3], tb(3), rg(3))), cut(OneRec(rg(1)))>>
+      olds == <<cut(LeafRecT(lf[1], Table0, rg(1))), cut(LeafRecT(lf[2], Table0, rg(2))), cut(LeafRecT(lf[3], Table0, rg(3)))>>
+      ain == [x \in 1..Len(au) |-> IF MRAtoms[au[x]].n = "xb" THEN <<2>> ELSE <<1, 2, 3, 4, 5>>]
+      regs == RunFrom(prog, regs0, alg, adim, ain, olds, 1)
       prs == Pairs(c.law) IN
   [law |-> c.law, exact |-> TRUE, alg |-> alg, adim |-> adim, regs |-> regs, prog |-> prog,
    pairs |-> [x \in DOMAIN prs |-> ModelPair(regs, prs[x])], herr |-> [x \in DOMAIN prog |-> 0], hcond |-> [x \in DOMAIN prog |-> 0], ain |-> ain, hist |-> hreg # 0]
